@@ -63,11 +63,49 @@ static long wrappers(uint64_t seed, long iters) {
   return bad.load();
 }
 
+// mode 3 (built with the guard on and a stripe limit of 4, so that doublings defer migration): after every doubling
+// four threads touch disjoint stripes concurrently; each migrates its stripe under its own lock and decrements the
+// pending counter, the last one releases the superseded array.  The only ordering between them is the counter.
+static long lazy(uint64_t seed, long iters) {
+  long bad = 0;
+  for (int round = 0; round < 3; ++round) {
+    Tbl t(8);
+    t.minimum_load_factor(0);
+    uint64_t next = 0;
+    for (int step = 0; step < 7; ++step) {
+      size_t hp = t.hashpower();
+      while (t.hashpower() == hp) { t.insert(next, next); ++next; }   // stop right after a doubling
+      std::atomic<bool> go{false};
+      std::vector<std::thread> th;
+      for (int w = 0; w < 4; ++w)
+        th.emplace_back([&, w] {
+          uint64_t s = seed * 1000003 + w + round * 17 + step;
+          while (!go) {}
+          for (long i = 0; i < iters / 50 + 20; ++i) {
+            s ^= s << 13; s ^= s >> 7; s ^= s << 17;
+            uint64_t k = ((s % (next + 8)) & ~uint64_t(3)) | (uint64_t)w;   // bucket index (identity hash) ≡ w (mod 4)
+            uint64_t v;
+            if (t.find(k, v) && v != k) ++bad;
+          }
+        });
+      go = true;
+      for (auto &x : th) x.join();
+    }
+    for (uint64_t k = 0; k < next; ++k) { uint64_t v; if (!t.find(k, v) || v != k) ++bad; }
+  }
+  return bad;
+}
+
 int main(int argc, char **argv) {
   uint64_t seed = argc > 1 ? strtoull(argv[1], 0, 10) : 1;
   long iters = argc > 2 ? atol(argv[2]) : 2000;
   int mode = argc > 3 ? atoi(argv[3]) : 0;
   long bad = 0;
+  if (mode == 3) {
+    bad = lazy(seed, iters);
+    printf("done bad=%ld\n", bad);
+    return bad ? 1 : 0;
+  }
   if (mode == 2) {
     bad = wrappers(seed, iters);
     printf("done bad=%ld\n", bad);
